@@ -539,7 +539,7 @@ def plane_call_sites(P, rep, rule="M2"):
                    "distance_along_plane) in that order and World::distance_to_plane forwards point, depth and name unchanged")
     for cls_ in LINE.values():
         Fp = P.func(cls_ + "::properties")
-        miss = astq.missing_anchors(P, Fp, ["starting_radius"])
+        miss = astq.missing_anchors(P, Fp, ["starting_radius"]) + astq.missing_anchors(P, P.func(cls_ + "::distance_to_feature_plane"), ["starting_radius"])
         if miss:
             rep.unknown(rule, "%s::properties: the local %s this rule is written over no longer exists (renamed?)" % (cls_, miss))
             return
